@@ -8,6 +8,7 @@ import Rustemo.Driver.Gen
 import Rustemo.Driver.Front
 import Rustemo.Driver.Ast
 import Rustemo.Driver.Glr
+import Rustemo.Driver.LayoutRT
 import Rustemo.Model.Canon
 import Rustemo.Model.CertComplete
 import Rustemo.Model.Core
@@ -103,6 +104,7 @@ def handle (st : DState) (line : String) : DState × String :=
   | "front" => (st, Rustemo.Front.handleFront rest)
   | "ast" => (st, Rustemo.Ast.handleAst rest)
   | "glr" => (st, Rustemo.Glr.handleGlr st.dump rest)
+  | "layoutcert" => (st, Rustemo.LayoutRT.handleLayoutCert st.dump rest)
   | "charenv" =>
     -- hypothesis `CharEnv` of the byte/token simulation for one input: `charenv <input-hex> #<matrix>`
     match rest.splitOn " #" with
